@@ -96,6 +96,19 @@ chk("C17", "model_checking",
     "GroupEncoding = compress/decompress, subgroup wrapper admits exactly torsion-free points, clear_cofactor = [8]. Toy: field axioms and subgroup facts. Conformance: driver built with the group feature.",
     "That 2 generates the whole multiplicative group is not established (needs the factorisation of l-1).", "TLA+ spec + TLC toy models + trace validation", "DESIGN.md 5/C17")
 
+chk("C10", "exploration",
+    "A property of the compiled artefact: the specification contributes the secrecy policy, the acceptance rule and TLC-checked mechanism models (Leakage.tla, self-composition over toy secrets, "
+    "kept counterexamples for the leaky variants). The verdict comes from dynamic analysis of the release binary: memcheck with the secret bytes marked undefined (a report is a candidate) and lock-step "
+    "comparison of the instruction-address + data-address sequence between two markers (valgrind lackey) for six secrets per operation, which confirms or refutes candidates and is also run unconditionally on a subset (thorough: all).",
+    "Finite secrets and operations; AVX-512 code cannot run under valgrind 3.19 (v512 not covered); nothing below the instruction/address level is observed.",
+    "memcheck secret-taint + lackey lock-step instruction/address traces; TLA+ policy and mechanism models", "DESIGN.md 5/C10")
+chk("C11", "model_checking",
+    "Bounds.tla / BoundsAvx2.tla: limb-bound factors through every kernel contract and group formula (serial u64, u32; AVX2 per lane), TLC explores all chains of formulas from the inductive type invariant and checks every kernel "
+    "precondition at every program point (re-deriving b < 1.01/1.6/2.33/1.6), with kept counterexamples; toy kernels show no intermediate exceeds its word. Conformance: kernels from raw limbs at the contract boundary and group formulas on "
+    "all-limbs-at-the-bound coordinates in builds with overflow checks and debug assertions (6 backends), AVX2 kernels from raw lanes at every documented pre-bound, and checked = release on the public-API master script.",
+    "Factor arithmetic over-approximates; only concrete executions (panic, wrong value, checked != release) are violations.",
+    "TLA+ bound-propagation models + TLC + checked-build / boundary-representation trace validation", "DESIGN.md 5/C11")
+
 NOT_YET = {}
 
 def main():
